@@ -101,11 +101,56 @@ def check_case(acc, spec, pname, subs, mode, var, tier, cfg=("bc", "first", "min
         acc.c["sequential_differs_from_brute(reported by C02)"] += 1
 
 
+def conformance_case(acc, spec, pname, subs, mode, var, cfg=("bc", "first", "min", None)):
+    """Binds the model to the library: the same call with real processes (fork, real Queue).  The messages the real parent
+    receives must be, per worker, exactly the stream SchedMC computed for that worker; the observed arrival order, replayed
+    through the controlled scheduler, must give the same yielded sequence / optimum / statistics as the real run."""
+    solvers = mpcases.make_solvers(subs, cfg)
+    real = M.run_real(solvers, mode, var)
+    base = {"spec": SC.short(spec), "partition": pname, "parts": [s["doms"] for s in subs], "mode": mode, "var": var}
+    acc.c["real_process_runs"] += 1
+    if real.error:
+        acc.violation("real-process:raises", dict(base, error=real.error), "with real processes and no fault the call raised")
+        return
+    order = [m[0] for m in real.log]
+    cache = {}
+    model = M.run_parent(solvers, mode, var, cache, [], [], "late", sched=M.OrderSched(order))
+    acc.c["real_process_messages"] += len(order)
+    if len(set(order)) > 1:
+        acc.c["nt_real_runs_with_2+_producers"] += 1
+    # per worker, the real messages are the model's stream (proc_idx, solution; final statistics on the marker)
+    for w, stream in enumerate(model.world.streams):
+        got = [m for m in real.log if m[0] == w]
+        exp = [(int(p), None if sol is None else tuple(int(v) for v in sol)) for p, sol, _st, _fin in stream]
+        if [(m[0], m[1]) for m in got] != exp:
+            acc.violation("real-process:stream-differs-from-model", dict(base, worker=w, real=[(m[0], m[1]) for m in got], model=exp),
+                          "the messages a real worker sent are not the stream SchedMC computed for it")
+            return
+        if got and stream and [int(v) for v in got[-1][2]] != [int(v) for v in stream[-1][3]]:
+            acc.violation("real-process:final-statistics-differ-from-model", dict(base, worker=w))
+            return
+    same = (model.yielded == real.yielded and model.value == real.value and not model.error and not model.hang
+            and (isinstance(model.stats, dict) and model.stats == real.stats))
+    if not same:
+        acc.violation("real-process:model-replay-differs", dict(base, order=order, real=[real.yielded, real.value], model=[model.yielded, model.value, model.error, model.hang]),
+                      "replaying the real arrival order through the controlled scheduler does not reproduce the real run")
+        return
+    acc.c["real_traces_reproduced_by_model"] += 1
+
+
 def unit(u):
     tier, cases = u
     acc = Acc()
     for spec, pname, subs, mode, var in cases:
         check_case(acc, spec, pname, subs, mode, var, tier)
+    return acc
+
+
+def unit_real(u):
+    tier, cases = u
+    acc = Acc()
+    for spec, pname, subs, mode, var in cases:
+        conformance_case(acc, spec, pname, subs, mode, var)
     return acc
 
 
@@ -128,10 +173,14 @@ def run(tier, seed):
     t0 = time.time()
     cases = all_cases(tier)
     acc = pmap(unit, [(tier, c) for c in chunks(cases, 6)], seed)
+    # conformance with the real library on a slice of the same cases (every 40th in quick, every 8th in thorough)
+    real_cases = [c for i, c in enumerate(cases) if i % (40 if tier == "quick" else 8) == 0]
+    acc.merge(unit_real((tier, real_cases)))  # in this process: pool workers are daemonic and may not start processes
     cov = {
         "states": acc.c["schedules"],
         "transitions": acc.c["deliveries"],
-        "traces_validated_against_impl": acc.c["schedules"],
+        "traces_validated_against_impl": acc.c["schedules"] + acc.c["real_traces_reproduced_by_model"],
+        "real_process_runs": acc.c["real_process_runs"], "real_traces_reproduced_by_model": acc.c["real_traces_reproduced_by_model"],
         "evaluations": acc.c["schedules"],
         "distinct_nontrivial": acc.c["nt_schedules_with_2+_producers"],
         "rule": "state = one complete schedule (merge of the real workers' message streams + placements of spurious timeouts / "
@@ -146,8 +195,10 @@ def run(tier, seed):
     return finish(PROP, tier, seed, "model_checking", acc, cov,
                   ["workers are deterministic and share nothing but the queue (determinism checked by running each target twice): "
                    "running them to completion and interleaving deliveries reaches the behaviours of concurrent workers",
-                   "per-producer FIFO delivery, as with a pipe"],
-                  t0, vacuity={"nt_schedules_with_2+_producers": 1000, "cases": 100})
+                   "per-producer FIFO delivery, as with a pipe",
+                   "conformance: a slice of the cases is also run with real processes (fork); per worker the real messages equal the "
+                   "model's stream, and the real arrival order replayed through the scheduler reproduces the real result and statistics"],
+                  t0, vacuity={"nt_schedules_with_2+_producers": 1000, "cases": 100, "real_traces_reproduced_by_model": 20})
 
 
 def replay(entry):
